@@ -719,6 +719,9 @@ pub fn fault_case(c: &FaultCase, st: &mut CaseStats) -> Result<(), Fail> {
     match c.kind {
         0..=5 => {
             st.bump("kind_cancel");
+            if c.spec.rounds[1].ops.len() >= 260 && c.spec.rounds[1].builds.first().map_or(false, |b| b.avail_mem.is_some()) {
+                st.bump("kind_cancel_batched_by_memory_hint");
+            }
             with_metric!(c.spec.metric, D => cancel_case::<D>(&c.spec, c.same_txn, c.kind == 5, st))
         }
         6..=7 => {
@@ -781,12 +784,26 @@ pub fn run_c10(tier: Tier) -> i32 {
     report.level = "fault_enumeration";
     let g = fault_gen();
     let g_ladder = GenCfg { first_ops: (150, 900), id_pool: (150, 900), dims: vec![(1, vec![8, 20, 64])], op_weights: [100, 0, 0, 0, 0], ..fault_gen() };
+    // batched states (added after seeded change C10/r1): the faulted build inserts 260-520 new items under a memory hint of
+    // 0 or one page, so that it goes through the batch-by-batch phases (a sub-tree built from the first 200 items, the
+    // rest routed into it afterwards, too large descendants queued again) and every poll of those phases is a cancel point
+    let g_batched = GenCfg {
+        later_ops: (260, 520),
+        id_pool: (300, 600),
+        dims: vec![(1, vec![2, 3])],
+        avail_mem: vec![(1, vec![Some(0), Some(4096)])],
+        split_after: vec![(1, vec![None, Some(8), Some(20)])],
+        threads: vec![1, 1, 2],
+        op_weights: [100, 0, 0, 0, 0],
+        ..fault_gen()
+    };
     let out = run_generated(
         "C10-faults",
         env_seed(),
-        tier.pick(160, 3200),
+        tier.pick(176, 3520),
         || {
             prop_oneof![
+                1 => (0u8..5, Just(false), crate::gen::history(&g_batched)).prop_map(|(kind, same_txn, spec)| FaultCase { kind, same_txn, spec }),
                 6 => (0u8..6, any::<bool>(), crate::gen::history(&g)).prop_map(|(kind, same_txn, spec)| FaultCase { kind, same_txn, spec }),
                 2 => (6u8..8, any::<bool>(), crate::gen::history(&g_ladder)).prop_map(|(kind, same_txn, spec)| FaultCase { kind, same_txn, spec }),
                 2 => (8u8..10, any::<bool>(), crate::gen::history(&g)).prop_map(|(kind, same_txn, spec)| FaultCase { kind, same_txn, spec }),
